@@ -550,9 +550,11 @@ def check_pairs(ctx):
             if d > 1e-10:
                 classes.setdefault(round(d, 8), []).append((u1, u2, dx))
     dists = sorted(classes)
-    if ctx.spec['cls'] in ('NLegLadder', 'Trivial', 'Simple') or ref.kind is not None:
+    if ctx.spec['cls'] in ('NLegLadder', 'Trivial', 'Simple'):
         return bad, n  # their pairs are not named by distance
     for k, name in enumerate(ORDINALS):
+        if ref.kind == 'species':  # all species of a site share its position: '<name>_all-all' is the distance class
+            name += '_all-all'
         if name not in lat.pairs:
             continue
         n += 1
@@ -578,6 +580,11 @@ def check_species_pairs(ctx):
     """MultiSpeciesLattice: documented pair names, u = simple_u * N_species + species, species next to each other."""
     lat, bad = ctx.lat, []
     simple, names, ns = lat.simple_lattice, lat.species_names, lat.N_species
+    for c in itertools.product(*[range(-1, L + 1) for L in lat.Ls], range(len(lat.unit_cell))):
+        pos, simple_pos = lat.position(np.array(c)), simple.position(np.array(c[:-1] + (c[-1] // ns,)))
+        if not np.allclose(pos, simple_pos, atol=1e-12):  # documented: each site of the simple lattice is replaced by the species
+            bad.append(('species:position', 'position(%s) = %s, the site %s of the simple lattice is at %s' % (c, pos, c[:-1] + (c[-1] // ns,), simple_pos)))
+            break
     exp = {}
     for key, val in simple.pairs.items():
         for (a, na), (b, nb) in itertools.product(enumerate(names), repeat=2):
